@@ -2,11 +2,11 @@
    Proved: exact-arithmetic correctness of the in-place LDL^T three-sweep solve for EVERY
    dimension (non-cyclic), positivity of all pivots for strictly diagonally dominant systems,
    bit-identical repeated solves (any arithmetic).
-   PARTIAL: the cyclic (Sherman-Morrison) solve and floating-point backward stability are covered
-   by the exact-rational correspondence (K-solve), not by a theorem.
-   (* FULL (cyclic): pivots_ok B -> 1 + v.q <> 0 -> matvec_cyc A (solve_cyc A b) = b *) *)
+   and of the cyclic (Sherman-Morrison) solve for every dimension n >= 2 under its two non-degeneracy
+   conditions (the modified matrix factorises, 1 + v.z <> 0).
+   PARTIAL: floating-point backward stability is covered by the exact-rational correspondence (K-solve), not by a theorem. *)
 From Coq Require Import List ZArith Bool Reals.
-From GMGP Require Import Scalar ScalarR TridiagDefs TridiagProofs.
+From GMGP Require Import Scalar ScalarR TridiagDefs TridiagProofs TridiagCyclic.
 Import ListNotations.
 Local Open Scope R_scope.
 
@@ -22,6 +22,15 @@ Theorem C14_ldlt_solve_correct : forall d ds ss b0 bs,
   length ss = length ds -> length bs = length ds -> pivots_ok d ds ss ->
   @matvec_tri Rsc (d :: ds) ss (@solve_tri Rsc (d :: ds) ss (b0 :: bs)) = b0 :: bs.
 Proof. exact ldlt_solve_correct. Qed.
+
+(* cyclic systems: A x = b for every n >= 2, with gamma = -a_00, B = A - u v^T the matrix the code factorises, z = B^-1 u *)
+Theorem C14_cyclic_solve_correct : forall (d0 : R) (ds ss : list R) (c b0 : R) (bs : list R),
+  (2 <= length (d0 :: ds))%nat -> length ss = length ds -> length bs = length ds -> d0 <> 0 ->
+  match @cyc_modified_diag Rsc (d0 :: ds) c with [] => False | e :: es => pivots_ok e es ss end ->
+  1 + (hd 0 (@solve_tri Rsc (@cyc_modified_diag Rsc (d0 :: ds) c) ss (@cyc_u Rsc (length (d0 :: ds)) (- d0) c))
+       + c / - d0 * last (@solve_tri Rsc (@cyc_modified_diag Rsc (d0 :: ds) c) ss (@cyc_u Rsc (length (d0 :: ds)) (- d0) c)) 0) <> 0 ->
+  @matvec_cyc Rsc (d0 :: ds) ss c (@solve_cyc Rsc (d0 :: ds) ss c (b0 :: bs)) = b0 :: bs.
+Proof. exact cyclic_solve_correct. Qed.
 
 (* strictly diagonally dominant with positive diagonal (zero sub-diagonals allowed): all pivots > 0 *)
 Theorem C14_pivots_positive_of_dominant : forall ds d ss,
@@ -42,3 +51,4 @@ Print Assumptions C14_sweeps_are_elimination.
 Print Assumptions C14_ldlt_solve_correct.
 Print Assumptions C14_pivots_positive_of_dominant.
 Print Assumptions C14_repeated_solves_identical.
+Print Assumptions C14_cyclic_solve_correct.
